@@ -23,6 +23,7 @@ mirrors pywbem/_cim_obj.py: CIMInstanceName.__init__, CIMProperty.__init__, CIMQ
 mirrors pywbem/_cim_types.py: CIMInt.__new__, type_from_name
 -/
 import Pywbem.Model.CimXmlDec
+import Pywbem.Generated.RspTables
 
 namespace Pywbem.Model.Resp
 open Pywbem.Model Pywbem.Model.XmlText Pywbem.Proto
@@ -44,15 +45,26 @@ def pyIntE (s : Str) : R Int :=
   | some v => .ok v
   | none => .error .valueError
 
-/-- `_cim_obj.ALL_CIMTYPES` -/
-def allCimTypes : List String :=
-  ["boolean", "string", "char16", "datetime", "uint8", "uint16", "uint32", "uint64", "sint8", "sint16",
-   "sint32", "sint64", "real32", "real64", "reference"]
+/-- `type in ALL_CIMTYPES` (set regenerated from pywbem/_cim_obj.py on every run) -/
+def isCimType (ty : Str) : Bool := Pywbem.Generated.Rsp.allCimTypes.any (fun t => t.toList == ty)
 
-def isCimType (ty : Str) : Bool := allCimTypes.any (fun t => t.toList == ty)
+/-- `type in QUALIFIER_CIMTYPES` (regenerated from pywbem/_cim_obj.py) -/
+def isQualifierType (ty : Str) : Bool := Pywbem.Generated.Rsp.qualifierCimTypes.any (fun t => t.toList == ty)
 
-/-- `_cim_obj.QUALIFIER_CIMTYPES` = all but reference -/
-def isQualifierType (ty : Str) : Bool := isCimType ty && ty != "reference".toList
+/-- `self.check_node(tup_tree, …)` with the arguments the named parse function passes in the source:
+    the table (element name, required / optional attributes, allowed children, allow_pcdata) is
+    regenerated from pywbem/_tupleparse.py on every run -/
+def checkG (fn : String) (t : Xml) : R (List (Str × Str) × List Xml) :=
+  match Pywbem.Generated.Rsp.checkNodes.find? (fun r => r.1 == fn) with
+  | some (_, elem, req, opt, allowed, pc) => checkNode t elem req opt allowed pc
+  | none => perr
+
+/-- the name list the named parse function hands to one_child / optional_child / list_of_* (regenerated
+    from pywbem/_tupleparse.py) -/
+def kidsG (fn helper : String) : List String :=
+  match Pywbem.Generated.Rsp.childLists.find? (fun r => r.1 == fn && r.2.1 == helper) with
+  | some (_, _, names) => names
+  | none => []
 
 inductive NumTy where
   | int (t : IntTy)
@@ -127,7 +139,7 @@ def arraySize (as : List (Str × Str)) : R (Option Int) :=
 
 /-- mirrors pywbem/_tupleparse.py: TupleParser.parse_keyvalue -/
 def decKeyValue (C : DecCodec) (t : Xml) : R Atom := do
-  let (as, ks) ← checkNode t "KEYVALUE" [] ["VALUETYPE", "TYPE"] (some []) true
+  let (as, ks) ← checkG "parse_keyvalue" t
   let data := Xml.pcdata ks
   let valuetype := Xml.attr as "VALUETYPE".toList
   let cimtype0 := Xml.attr as "TYPE".toList
@@ -372,9 +384,7 @@ def ctorQualifier (name ty : Str) (val : Val) (p o ts ti tr : Option Bool) : R Q
 
 /-- mirrors pywbem/_tupleparse.py: TupleParser.parse_qualifier -/
 def decQualifier (t : Xml) : R Qual := do
-  let (as, ks) ← checkNode t "QUALIFIER" ["NAME", "TYPE"]
-    ["OVERRIDABLE", "TOSUBCLASS", "TOINSTANCE", "TRANSLATABLE", "PROPAGATED", "xml:lang"]
-    (some ["VALUE", "VALUE.ARRAY"]) false
+  let (as, ks) ← checkG "parse_qualifier" t
   let ty := getAttrD as "TYPE" ""
   let value ← unpackValue C ty ks
   let propagated ← boolAttrOf as "PROPAGATED" "false"
@@ -435,9 +445,7 @@ def ctorProperty (name ty : Str) (val : Val) (isArray : Bool) (asz : Option Int)
 
 /-- mirrors pywbem/_tupleparse.py: TupleParser.parse_property -/
 def decProperty (t : Xml) : R Prop_ := do
-  let (as, ks) ← checkNode t "PROPERTY" ["TYPE", "NAME"]
-    ["CLASSORIGIN", "PROPAGATED", "EmbeddedObject", "EMBEDDEDOBJECT", "xml:lang"]
-    (some ["QUALIFIER", "VALUE"]) false
+  let (as, ks) ← checkG "parse_property" t
   let ty := getAttrD as "TYPE" ""
   let val ← unpackValue C ty ks
   let origin := Xml.attr as "CLASSORIGIN".toList
@@ -450,9 +458,7 @@ def decProperty (t : Xml) : R Prop_ := do
 
 /-- mirrors pywbem/_tupleparse.py: TupleParser.parse_property_array -/
 def decPropertyArray (t : Xml) : R Prop_ := do
-  let (as, ks) ← checkNode t "PROPERTY.ARRAY" ["NAME", "TYPE"]
-    ["CLASSORIGIN", "PROPAGATED", "ARRAYSIZE", "EmbeddedObject", "EMBEDDEDOBJECT", "xml:lang"]
-    (some ["QUALIFIER", "VALUE.ARRAY"]) false
+  let (as, ks) ← checkG "parse_property_array" t
   let ty := getAttrD as "TYPE" ""
   let val ← unpackValue C ty ks
   let origin := Xml.attr as "CLASSORIGIN".toList
@@ -483,8 +489,7 @@ def refValOf : List Path → R Val
 /-- mirrors pywbem/_tupleparse.py: TupleParser.parse_property_reference — the constructor call is NOT
     inside a try block -/
 def decPropertyReference (t : Xml) : R Prop_ := do
-  let (as, ks) ← checkNode t "PROPERTY.REFERENCE" ["NAME"] ["REFERENCECLASS", "CLASSORIGIN", "PROPAGATED"]
-    (some ["QUALIFIER", "VALUE.REFERENCE"]) false
+  let (as, ks) ← checkG "parse_property_reference" t
   let refCls := Xml.attr as "REFERENCECLASS".toList
   let refs ← decValueRefs C ks
   let val ← refValOf refs
@@ -514,8 +519,7 @@ def decProperties : List Xml → R (List Prop_)
 /-- mirrors pywbem/_tupleparse.py: TupleParser.parse_instance (CIMInstance(classname, qualifiers) and
     `inst[prop.name] = prop` cannot fail for parsed qualifiers/properties) -/
 def decInstance (t : Xml) : R Inst := do
-  let (as, ks) ← checkNode t "INSTANCE" ["CLASSNAME"] ["xml:lang"]
-    (some ["QUALIFIER", "PROPERTY", "PROPERTY.ARRAY", "PROPERTY.REFERENCE"]) false
+  let (as, ks) ← checkG "parse_instance" t
   let quals ← decQualifiers C ks
   let props ← decProperties C emb ks
   pure (.mk (getAttrD as "CLASSNAME" "") none (dictOfList Prop_.name props) (dictOfList Qual.name quals))
@@ -533,20 +537,20 @@ def decParameter (t : Xml) : R Param := do
   | .text _ => perr
   | .elem n _ _ =>
     if n = "PARAMETER".toList then do
-      let (as, ks) ← checkNode t "PARAMETER" ["NAME", "TYPE"] [] (some ["QUALIFIER"]) false
+      let (as, ks) ← checkG "parse_parameter" t
       let quals ← decQualifiers C ks
       catchVT (ctorParameter (getAttrD as "NAME" "") (getAttrD as "TYPE" "") none false none quals)
     else if n = "PARAMETER.REFERENCE".toList then do
-      let (as, ks) ← checkNode t "PARAMETER.REFERENCE" ["NAME"] ["REFERENCECLASS"] (some ["QUALIFIER"]) false
+      let (as, ks) ← checkG "parse_parameter_reference" t
       let quals ← decQualifiers C ks
       ctorParameter (getAttrD as "NAME" "") "reference".toList (Xml.attr as "REFERENCECLASS".toList) false none quals
     else if n = "PARAMETER.ARRAY".toList then do
-      let (as, ks) ← checkNode t "PARAMETER.ARRAY" ["NAME", "TYPE"] ["ARRAYSIZE"] (some ["QUALIFIER"]) false
+      let (as, ks) ← checkG "parse_parameter_array" t
       let asz ← arraySize as
       let quals ← decQualifiers C ks
       catchVT (ctorParameter (getAttrD as "NAME" "") (getAttrD as "TYPE" "") none true asz quals)
     else if n = "PARAMETER.REFARRAY".toList then do
-      let (as, ks) ← checkNode t "PARAMETER.REFARRAY" ["NAME"] ["REFERENCECLASS", "ARRAYSIZE"] (some ["QUALIFIER"]) false
+      let (as, ks) ← checkG "parse_parameter_refarray" t
       let asz ← arraySize as
       let quals ← decQualifiers C ks
       ctorParameter (getAttrD as "NAME" "") "reference".toList (Xml.attr as "REFERENCECLASS".toList) true asz quals
@@ -571,8 +575,7 @@ def ctorMethod (name rt : Str) (params : List Param) (origin : Option Str) (prop
 
 /-- mirrors pywbem/_tupleparse.py: TupleParser.parse_method -/
 def decMethod (t : Xml) : R Meth := do
-  let (as, ks) ← checkNode t "METHOD" ["NAME"] ["TYPE", "CLASSORIGIN", "PROPAGATED"]
-    (some ["QUALIFIER", "PARAMETER", "PARAMETER.REFERENCE", "PARAMETER.ARRAY", "PARAMETER.REFARRAY"]) false
+  let (as, ks) ← checkG "parse_method" t
   let params ← decParameters C ks
   let origin := Xml.attr as "CLASSORIGIN".toList
   let propagated ← boolAttrOf as "PROPAGATED" "false"
@@ -594,8 +597,7 @@ def decMethods : List Xml → R (List Meth)
 /-- mirrors pywbem/_tupleparse.py: TupleParser.parse_class (CIMClass(...) cannot fail for parsed
     properties/methods/qualifiers) -/
 def decClass (t : Xml) : R Cls := do
-  let (as, ks) ← checkNode t "CLASS" ["NAME"] ["SUPERCLASS"]
-    (some ["QUALIFIER", "PROPERTY", "PROPERTY.REFERENCE", "PROPERTY.ARRAY", "METHOD"]) false
+  let (as, ks) ← checkG "parse_class" t
   let props ← decProperties C emb ks
   let quals ← decQualifiers C ks
   let meths ← decMethods C ks
@@ -619,9 +621,7 @@ def ctorQualDecl (name ty : Str) (val : Val) (isArray : Option Bool) (asz : Opti
 
 /-- mirrors pywbem/_tupleparse.py: TupleParser.parse_qualifier_declaration (with parse_scope) -/
 def decQualDecl (t : Xml) : R QualDecl := do
-  let (as, ks) ← checkNode t "QUALIFIER.DECLARATION" ["NAME", "TYPE"]
-    ["ISARRAY", "ARRAYSIZE", "OVERRIDABLE", "TOSUBCLASS", "TOINSTANCE", "TRANSLATABLE"]
-    (some ["SCOPE", "VALUE", "VALUE.ARRAY"]) false
+  let (as, ks) ← checkG "parse_qualifier_declaration" t
   let ty := getAttrD as "TYPE" ""
   let isArray ← boolAttrOf as "ISARRAY" "false"
   let asz ← arraySize as
@@ -645,8 +645,7 @@ where
         match sc with
         | some _ => perr
         | none => do
-          let (sas, _) ← checkNode k "SCOPE" []
-            ["CLASS", "ASSOCIATION", "REFERENCE", "PROPERTY", "METHOD", "PARAMETER", "INDICATION"] (some []) false
+          let (sas, _) ← checkG "parse_scope" k
           let s ← decScopeAttrs sas
           qdLoop ty all rest (some s) v
       else do
